@@ -22,7 +22,7 @@ def view_to_world(state, area, c):
 
 @contract(target=OF + 'from_visibility',
           args={'state': 'State', 'area': 'Area', 'visibility_function': 'VisFn', 'rng': 'Rng'},
-          kwonly=['area', 'visibility_function', 'rng'], props=['C01', 'C03', 'C05', 'C06', 'C07'])
+          kwonly=['area', 'visibility_function', 'rng'], props=['C02', 'C01', 'C03', 'C05', 'C06', 'C07'])
 def from_visibility(state, area, visibility_function, rng):
     s0 = old(state)
     shape_ok = ghost_calls(visibility_function) == 1 and (
@@ -89,7 +89,7 @@ def grid_src_pos(o, c, h, w):
 
 
 @contract(target=OF + 'fully_transparent', args={'state': 'State', 'area': 'Area', 'rng': 'Rng'},
-          kwonly=['area', 'rng'], props=['C01', 'C03', 'C05', 'C07'])
+          kwonly=['area', 'rng'], props=['C02', 'C01', 'C03', 'C05', 'C07'])
 def fully_transparent(state, area, rng):
     s0 = old(state)
     ensures('total', lambda: returned())
